@@ -8,4 +8,5 @@ def main : IO UInt32 :=
     | "c03fn" => C03.checkFn params lines
     | "c03" => C03.checkEng params lines
     | "c03burst" => C03.checkEng params lines
+    | "c03two" => C03.checkEng params lines
     | _ => { bad := [s!"unknown family {family}"] })
